@@ -547,7 +547,7 @@ func traceSafe(in Input) bool {
 func TestC13(t *testing.T) {
 	zerologger.Logger = zerologger.Output(io.Discard)
 	col := NewCollector("C13", "Check.C13",
-		"histories of a constructor refresh plus 1-8 refreshes/queries on the real dirk or wallet account manager over 1-5 specifiers, 2-12 offered accounts and their validators; non-trivial = some account was admitted and (some offered account was refused or some query answered with a non-empty set); distinct by input text")
+		"histories of a constructor refresh plus 1-8 refreshes/queries on the real dirk or wallet account manager over 1-5 specifiers, 2-12 offered accounts and their validators (one case in 50: a large installation of 60-1500 accounts written by ranges, with a node that fails the requests naming one key, answers in part, or fails wholesale); non-trivial = some account was admitted and (some offered account was refused or some query answered with a non-empty set); distinct by input text")
 	col.ShardSize = 150 // elaborating a case costs ~20 ms in coqc; small shards are evaluated in parallel
 	n := EnvInt("VERIF_N", 800)
 	var ins []Input
